@@ -219,6 +219,10 @@ type Raft struct {
 	// persisted state must be restored before the node runs again.
 	stopped bool
 
+	// Indicates that the prevote held by this node succeeded and that it
+	// may start a real election.
+	prevoteWon bool
+
 	// The number of rounds of AppendEntries RPCs this node has started. Used to ensure that
 	// a read-only operation is only confirmed by a round that started after it was submitted.
 	heartbeatRound uint64
@@ -1274,10 +1278,14 @@ func (r *Raft) election() {
 		time.Since(r.lastContact) < r.options.electionTimeout {
 		return
 	}
-	if r.state == Follower {
+	// A candidate whose election did not succeed must win a prevote again before it
+	// starts another one. Otherwise it would keep incrementing its term for as long as
+	// it cannot reach the other nodes and depose a healthy leader once it can.
+	if r.state == Follower || (r.state == Candidate && !r.prevoteWon) {
 		r.becomePreCandidate()
 	}
 	if r.state == Candidate {
+		r.prevoteWon = false
 		r.becomeCandidate()
 	}
 
@@ -1365,6 +1373,7 @@ func (r *Raft) sendRequestVote(id string, address string, votes *int, prevote bo
 		// Signal to the election loop to start an election so that the real election
 		// does not have to wait until the election ticker goes off again.
 		r.state = Candidate
+		r.prevoteWon = true
 		r.electionCond.Broadcast()
 	}
 
